@@ -435,6 +435,23 @@ func opSpeciate(g *G) (interface{}, []uint64, int, interface{}) {
 			pop.Organisms = append(pop.Organisms, sp.Organisms...)
 		}
 	}
+	if len(pop.Species) > 0 && g.chance(0.15) {
+		// a species that is still listed but has no organisms (emptied through removeOrganism / built with NewSpecies):
+		// speciate skips it, it has no representative
+		victim := pop.Species[g.intn(len(pop.Species))]
+		gone := map[*genetics.Organism]bool{}
+		for _, o := range victim.Organisms {
+			gone[o] = true
+		}
+		kept := pop.Organisms[:0:0]
+		for _, o := range pop.Organisms {
+			if !gone[o] {
+				kept = append(kept, o)
+			}
+		}
+		pop.Organisms = kept
+		victim.Organisms = nil
+	}
 	if g.chance(0.05) {
 		opts.CompatThreshold = 0
 	}
